@@ -15,6 +15,8 @@ from ._helpers_rules_c import (
 )
 from ._helpers_str_l import contradicted, flag_aliases, implying
 from ._helpers_rob_a import fin_quiet, helper_callers, normal_form
+from ._helpers_str2_l import UNKNOWN, Raises, model_cut
+from ..oracles import load as load_oracle
 from .c23 import commit_requires_active
 
 R = Registry(
@@ -31,7 +33,11 @@ R = Registry(
         "error state kept on the Connection (_reentrant_error, _is_disconnect: class default shadowed on the "
         "instance) is back at its default on every exit of the handler, so one error's disconnect verdict never "
         "decides the next error's (the in-progress flag that gates autobegin -- the premise of the "
-        "transaction-pending gate -- is the same obligation for the `= True/= False` spelling: C23-R7)."
+        "transaction-pending gate -- is the same obligation for the `= True/= False` spelling: C23-R7); of the "
+        "transaction-control primitives that the Transaction classes call on the Connection, the undo operations "
+        "(do_rollback*) are skipped on a connection that is no longer open and valid, all others reach the dialect on "
+        "every normal path (they raise instead of succeeding silently on a lost transaction); Pool._invalidate "
+        "renews the generation stamp whenever the failed connection has no pool record or a record newer than the stamp."
     ),
     not_decided="which driver errors each dialect's is_disconnect() recognises; behaviour of user handle_error listeners.",
 )
@@ -126,6 +132,14 @@ def r1(ctx):
                 if sites and all(_wrapped(pm, hc) for hc in sites):
                     wrapped, via = True, f" (at every call of the private helper {m.name})"
             loc = f"{m.module.path}:{c.lineno}"
+            if not wrapped and key not in UNWRAPPED_OK:
+                # a reasoned bare call moved into a private helper of its (only) caller keeps the caller's entry
+                owners = {ck for ck in (helper_callers(ctx.index, m) or [])
+                          if ck != m.key and ck.split("::")[1].split(".")[0] == cls.name}
+                moved = [f"{ck}:{c.func.attr}" for ck in owners]
+                if len(moved) == 1 and moved[0] in UNWRAPPED_OK and moved[0] not in seen:
+                    key = moved[0]
+                    seen.add(key)
             if wrapped:
                 ctx.ok(key, "try/except BaseException -> _handle_dbapi_exception(e, ...)" + via)
             elif key in UNWRAPPED_OK:
@@ -381,6 +395,152 @@ def r5(ctx):
                   f"`del {flag}` / tested false on every exit after the store", f.loc, w)
 
 
+# ---------------------------------------------------------------------- C27-R6
+# "... if a transaction was in progress further use raises until rollback() is called".  The Transaction objects of
+# engine/base.py drive the database through a small layer of Connection primitives (`self.connection._x_impl(...)`),
+# each of which hands one transaction-control operation to the dialect.  On a Connection whose DBAPI connection is
+# gone the two kinds of operation behave in opposite ways: an *undo* is skipped and succeeds (that is the rollback()
+# the application has to call), everything else must reach the dialect -- its use of the connection runs into
+# _revalidate_connection()/_invalid_transaction() and raises -- and must never return as if it had been done.
+POOL = "pool/base.py"
+VALID = "_still_open_and_dbapi_connection_is_valid"
+
+
+def _txn_primitives(ctx, cls):
+    """Connection methods that Transaction classes of the module call on their connection, with the normal form of
+    each and the transaction-control dialect calls found in it."""
+    ops = load_oracle("dialect_transaction_ops.json")
+    kind = {o: "undo" for o in ops["undo"]}
+    kind.update({o: "forward" for o in ops["forward"]})
+    base = ctx.index.cls(f"{ENG}::Transaction")
+    called = set()
+    for c in ctx.index.all_classes():
+        if c.module is not cls.module or not ctx.index.is_subclass(c, base):
+            continue
+        for m in c.methods.values():
+            for call in calls_in(m.node):
+                fn = call.func
+                if isinstance(fn, ast.Attribute) and (dotted(fn.value) or "").split(".")[-1] == "connection":
+                    called.add(fn.attr)
+    out = []
+    for name in sorted(called):
+        m = cls.methods.get(name)
+        if m is None:
+            continue
+        nf = _nf(ctx, m, "_handle_dbapi_exception", "_invalid_transaction", alias="all")
+        g = ctx.cfg(nf)
+        sites = [(n, c) for n in g.nodes for c in _own_calls(n) if _is_dialect_do(c) and c.func.attr in kind]
+        if sites:
+            out.append((m, nf, g, sites, kind))
+    return out
+
+
+def _own_calls(n):
+    from ._helpers_rules_c import own_calls
+    return own_calls(n)
+
+
+@R.rule("C27-R6", floor=8, template="T-TABLE/T-GUARD",
+        desc="transaction-control primitives of Connection on a connection lost to a disconnect: an undo operation "
+             "(do_rollback*, oracle dialect_transaction_ops.json) is attempted only while the DBAPI connection is still "
+             "open and valid -- rollback() is how the application acknowledges the loss and must succeed; every other "
+             "operation (begin / savepoint / release / prepare / commit) reaches the dialect on every normal path, so "
+             "that it raises instead of silently 'succeeding' on the lost transaction")
+def r6(ctx):
+    cls = ctx.index.cls(f"{ENG}::Connection")
+    vp = ctx.method(cls.key, VALID)
+    vnf = _nf(ctx, vp, alias="all")
+    rets = [r for r in walk_local(vnf.node) if isinstance(r, ast.Return) and r.value is not None]
+    ctx.require(len(rets) == 1, f"{VALID} is no longer a single boolean expression")
+    definition = set(test_atoms(rets[0].value, True))
+    prims = _txn_primitives(ctx, cls)
+    ctx.require(prims, "no Connection primitive called by the Transaction classes hands a transaction operation to the dialect")
+    for m, nf, g, sites, kind in prims:
+        for op in sorted({c.func.attr for _, c in sites}):
+            nodes = [n.id for n, c in sites if c.func.attr == op]
+            key = f"{m.key}:{op}"
+            if kind[op] == "undo":
+                bad = []
+                for n in nodes:
+                    atoms = set(guard_atoms(g.edge_guards(n)))
+                    if (f"self.{VALID}", True) not in atoms and not definition <= atoms:
+                        bad.append(g.nodes[n].describe())
+                ctx.check(not bad, key + ":skipped-on-dead-connection",
+                          f"`dialect.{op}()` is attempted without the test that the DBAPI connection is still open and valid "
+                          f"({'; '.join(bad)}): on an invalidated connection the undo runs into _revalidate_connection() and "
+                          "raises PendingRollbackError -- the rollback() that is supposed to end that state can never succeed",
+                          f"under `self.{VALID}`", m.loc)
+            else:
+                w = must_pass(g, [g.entry], [g.exit], nodes, edge_ok=no_exc)
+                skipping = [unparse(t) for n in nodes for t, pol in g.edge_guards(n)]
+                ctx.check(w is None, key + ":never-skipped",
+                          f"{m.qualname} can return normally without calling `dialect.{op}()`"
+                          + (f" (the call is conditional on {', '.join('`%s`' % t for t in sorted(set(skipping)))})" if skipping else "")
+                          + f": {op[3:].replace('_', ' ')} is not an undo operation -- on a connection invalidated by a disconnect "
+                          "it has to reach the dialect, whose use of the connection raises PendingRollbackError until rollback() "
+                          "is called; skipped, the transaction object 'succeeds' on work that was lost",
+                          "every normal exit has passed the dialect call", m.loc, w)
+
+
+# ---------------------------------------------------------------------- C27-R7
+# "... pooled connections opened before the failure are not reused".  Pool._invalidate(connection) renews the pool's
+# generation stamp; the only reason not to is that the stamp is already not older than the failed connection's record.
+# Decided by evaluating the function's branch tests in the two models in which that reason does not exist.
+@R.rule("C27-R7", floor=2, template="T-GUARD",
+        desc="Pool._invalidate renews the generation stamp (_invalidate_time) whenever it is not known to be newer "
+             "than the failed connection: when the connection has no pool record (detached), and when its record "
+             "started after the current stamp -- branch tests evaluated in those two models, whatever their shape")
+def r7(ctx):
+    f = _nf(ctx, f"{POOL}::Pool._invalidate", "invalidate", alias="all")
+    g = ctx.cfg(f)
+    conn = f.params[1]
+    stamps = [n for d, t, st in attr_stores(f.node) if d == "self._invalidate_time" and isinstance(st, (ast.Assign, ast.AnnAssign))
+              for n in g.nodes_for(st)]
+    ctx.require(stamps, "Pool._invalidate no longer assigns self._invalidate_time")
+
+    def is_record_read(e):
+        if isinstance(e, ast.Attribute) and e.attr == "_connection_record" and dotted(e.value) == conn:
+            return True
+        return isinstance(e, ast.Call) and call_name(e) == "getattr" and len(e.args) >= 2 and dotted(e.args[0]) == conn \
+            and isinstance(e.args[1], ast.Constant) and e.args[1].value == "_connection_record"
+    binds = {}
+    for nm, v, st in name_stores(f.node):
+        binds.setdefault(nm, []).append(v)
+    recs = {nm for nm, vs in binds.items() if all(v is not None and is_record_read(v) for v in vs)}
+    ctx.require(recs or any(is_record_read(x) for x in ast.walk(f.node)),
+                f"Pool._invalidate no longer reads `{conn}._connection_record`")
+
+    class _Rec:
+        pass
+    models = {
+        "no-pool-record": (None, None, None,
+                           "the failed connection has no pool record (it was detach()ed)"),
+        "record-newer-than-stamp": (_Rec(), 5.0, 10.0,
+                                    "the failed connection was opened after the last invalidation"),
+    }
+    for name, (rec, stamp, start, text) in models.items():
+        def leaf(e, rec=rec, stamp=stamp, start=start):
+            if (isinstance(e, ast.Name) and e.id in recs) or is_record_read(e):
+                return rec
+            if isinstance(e, ast.Attribute) and e.attr == "starttime" and \
+                    ((isinstance(e.value, ast.Name) and e.value.id in recs) or is_record_read(e.value)):
+                if rec is None:
+                    raise Raises("starttime of None")
+                return start
+            if dotted(e) == "self._invalidate_time":
+                return UNKNOWN if stamp is None else stamp
+            if isinstance(e, (ast.Name, ast.Attribute, ast.Call, ast.Subscript)):
+                return UNKNOWN
+            return NotImplemented
+        cut = model_cut(g, leaf)
+        w = must_pass(g, [g.entry], [g.exit], stamps, edge_ok=both(no_exc, cut_edges(cut)))
+        ctx.check(w is None, f"{f.key}:stamp-renewed[{name}]",
+                  f"when {text}, Pool._invalidate() can return without renewing `self._invalidate_time`: the connections "
+                  "opened before the disconnect keep their place in the pool and are handed out again (each has to fail on "
+                  "its own), although the error was classified as a disconnect with invalidate_pool_on_disconnect",
+                  "self._invalidate_time = time.time() on every path", f.loc, w)
+
+
 # ---------------------------------------------------------------------- self-test battery
 R.mutant("commit-impl-unwrapped", ENG,
          sub("        try:\n            self.engine.dialect.do_commit(self.connection)\n        except BaseException as e:\n            self._handle_dbapi_exception(e, None, None, None, None)\n",
@@ -520,3 +680,67 @@ R.mutant("benign-rob-invalidate-no-alias-nested", ENG,
              "            assert pool_proxied_connection is not None\n            pool_proxied_connection.invalidate(exception)\n\n        self._dbapi_connection = None\n",
              "        still_open = self._still_open_and_dbapi_connection_is_valid\n        if still_open:\n"
              "            assert self._dbapi_connection is not None\n            self._dbapi_connection.invalidate(exception)\n        self._dbapi_connection = None\n"), None)
+
+# --- round-2 strengthening (str2-l): seeds C27_3 (RELEASE SAVEPOINT skipped on a dead connection) and C27_4
+# (Pool._invalidate no longer stamps for a connection without a pool record).  New C27-R6, C27-R7.
+_RELEASE = "        self.engine.dialect.do_release_savepoint(self, name)\n"
+R.mutant("seed3-release-savepoint-skipped-on-dead-connection", ENG,
+         sub(_RELEASE, "        if self._still_open_and_dbapi_connection_is_valid:\n            self.engine.dialect.do_release_savepoint(self, name)\n"), "C27-R6")
+R.mutant("release-savepoint-early-return-when-invalidated", ENG,
+         sub(_RELEASE, "        if self.invalidated:\n            return\n" + _RELEASE), "C27-R6")
+_COMMIT_TRY6 = ("        try:\n            self.engine.dialect.do_commit(self.connection)\n        except BaseException as e:\n"
+                "            self._handle_dbapi_exception(e, None, None, None, None)\n")
+R.mutant("commit-skipped-when-connection-gone-via-local", ENG,
+         sub(_COMMIT_TRY6, "        usable = self._still_open_and_dbapi_connection_is_valid\n        if not usable:\n            return\n" + _COMMIT_TRY6), "C27-R6")
+_SAVEPOINT = "        self.engine.dialect.do_savepoint(self, name)\n        return name\n"
+R.mutant("savepoint-skipped-in-helper-on-dead-connection", ENG,
+         chain(sub(_SAVEPOINT, "        self._emit_savepoint(name)\n        return name\n"),
+               sub("    def _savepoint_impl(self, name: Optional[str] = None) -> str:\n",
+                   "    def _emit_savepoint(self, name: str) -> None:\n        if self._dbapi_connection is not None and self._dbapi_connection.is_valid:\n"
+                   "            self.engine.dialect.do_savepoint(self, name)\n\n"
+                   "    def _savepoint_impl(self, name: Optional[str] = None) -> str:\n")), "C27-R6")
+_RB_SP = ("        if self._still_open_and_dbapi_connection_is_valid:\n"
+          "            self.engine.dialect.do_rollback_to_savepoint(self, name)\n")
+R.mutant("rollback-to-savepoint-attempted-on-dead-connection", ENG,
+         sub(_RB_SP, "        self.engine.dialect.do_rollback_to_savepoint(self, name)\n"), "C27-R6")
+R.mutant("rollback-to-savepoint-guard-inverted", ENG,
+         sub(_RB_SP, "        if not self._still_open_and_dbapi_connection_is_valid:\n"
+                     "            self.engine.dialect.do_rollback_to_savepoint(self, name)\n"), "C27-R6")
+R.mutant("benign-release-savepoint-explicit-pending-check", ENG,
+         sub(_RELEASE, "        if not self._still_open_and_dbapi_connection_is_valid:\n            self._invalid_transaction()\n" + _RELEASE), None)
+R.mutant("benign-release-savepoint-dialect-in-local", ENG,
+         sub(_RELEASE, "        dialect = self.engine.dialect\n        dialect.do_release_savepoint(self, name)\n"), None)
+R.mutant("benign-rollback-to-savepoint-early-return-flag-local", ENG,
+         sub(_RB_SP, "        alive = self._still_open_and_dbapi_connection_is_valid\n        if not alive:\n            return\n"
+                     "        self.engine.dialect.do_rollback_to_savepoint(self, name)\n"), None)
+R.mutant("benign-rollback-to-savepoint-validity-spelled-out", ENG,
+         sub(_RB_SP, "        pooled = self._dbapi_connection\n        if pooled is not None and pooled.is_valid:\n"
+                     "            self.engine.dialect.do_rollback_to_savepoint(self, name)\n"), None)
+R.mutant("benign-savepoint-emitted-by-helper", ENG,
+         chain(sub(_SAVEPOINT, "        self._emit_savepoint(name)\n        return name\n"),
+               sub("    def _savepoint_impl(self, name: Optional[str] = None) -> str:\n",
+                   "    def _emit_savepoint(self, name: str) -> None:\n        self.engine.dialect.do_savepoint(self, name)\n\n"
+                   "    def _savepoint_impl(self, name: Optional[str] = None) -> str:\n")), None)
+_STAMP = ("        if not rec or self._invalidate_time < rec.starttime:\n            self._invalidate_time = time.time()\n")
+R.mutant("seed4-pool-invalidate-skips-stamp-without-record", POOL,
+         sub(_STAMP, "        if rec is not None and self._invalidate_time < rec.starttime:\n            self._invalidate_time = time.time()\n"), "C27-R7")
+R.mutant("pool-invalidate-stamp-comparison-reversed", POOL,
+         sub(_STAMP, "        if not rec or self._invalidate_time > rec.starttime:\n            self._invalidate_time = time.time()\n"), "C27-R7")
+R.mutant("pool-invalidate-stamp-only-with-checkin", POOL,
+         sub(_STAMP, "        if _checkin and (not rec or self._invalidate_time < rec.starttime):\n            self._invalidate_time = time.time()\n"), "C27-R7")
+R.mutant("pool-invalidate-early-return-without-record", POOL,
+         sub(_STAMP, "        if rec is None:\n            return\n        if self._invalidate_time < rec.starttime:\n            self._invalidate_time = time.time()\n"), "C27-R7")
+R.mutant("benign-pool-invalidate-is-none-operands-swapped", POOL,
+         sub(_STAMP, "        if rec is None or rec.starttime > self._invalidate_time:\n            self._invalidate_time = time.time()\n"), None)
+R.mutant("benign-pool-invalidate-inverted-nested", POOL,
+         sub(_STAMP, "        if rec is not None and self._invalidate_time >= rec.starttime:\n            pass\n        else:\n"
+                     "            self._invalidate_time = time.time()\n"), None)
+R.mutant("benign-pool-invalidate-stale-flag-local", POOL,
+         sub(_STAMP, "        record = rec\n        stale = record is None or self._invalidate_time < record.starttime\n        if stale:\n"
+                     "            self._invalidate_time = time.time()\n"), None)
+R.mutant("benign-pool-invalidate-stamp-helper", POOL,
+         chain(sub(_STAMP, "        self._renew_generation(rec)\n"),
+               sub("    def _invalidate(\n        self,\n        connection: PoolProxiedConnection,\n",
+                   "    def _renew_generation(self, record: Any) -> None:\n        if record and self._invalidate_time >= record.starttime:\n"
+                   "            return\n        self._invalidate_time = time.time()\n\n"
+                   "    def _invalidate(\n        self,\n        connection: PoolProxiedConnection,\n")), None)
